@@ -4,7 +4,7 @@
    `bearing` = bearing_degrees (default precision), `bearing_raw` its value before rounding,
    `dest_rad`/`dest_deg` = inverse_haversine_radians/degrees before the 1e-7 rounding,
    `dist_xyz` = dist_xyz_meters, `rot` = rotate_coordinates (one coordinate). *)
-From GV Require Import Prelude SphereM SphereP1 SphereP2 SphereP3.
+From GV Require Import Prelude SphereM SphereP1 SphereP2 SphereP3 SphereP4.
 From Coq Require Import Reals Lra.
 Open Scope R_scope.
 
@@ -20,6 +20,11 @@ Print Assumptions C07_dist_refl.
 Theorem C07_dist_range : forall p q, 0 <= hdist p q <= PI * Rearth.
 Proof. exact hdist_range. Qed.
 Print Assumptions C07_dist_range.
+
+(* the bound is attained: exactly antipodal points are half the circumference apart *)
+Theorem C07_dist_antipode : forall l f, hdist (l, f) (l + 180, - f) = PI * Rearth.
+Proof. exact hdist_antipode. Qed.
+Print Assumptions C07_dist_antipode.
 
 (* --- it IS the great-circle distance of the 6 371 000 m sphere: radius times the angle between
        the two unit vectors --- *)
@@ -70,6 +75,15 @@ Theorem C07_dest_bearing : forall p b d,
   bearing_raw p (dest_deg p b d) = b.
 Proof. exact dest_bearing_deg. Qed.
 Print Assumptions C07_dest_bearing.
+
+(* --- the bearing IS the initial great-circle azimuth: travelling along the computed bearing for
+       the computed distance arrives at the second point (longitude up to whole turns) --- *)
+Theorem C07_bearing_is_azimuth : forall p q,
+  -90 < lat p < 90 -> -90 < lat q < 90 -> 0 < hdist p q < PI * Rearth ->
+  exists m : Z,
+    dest_rad p (rad (bearing_raw p q)) (hdist p q) = (lon q + 360 * IZR m, lat q).
+Proof. exact inverse_then_direct. Qed.
+Print Assumptions C07_bearing_is_azimuth.
 
 (* --- degree and radian entry points are the same function --- *)
 Theorem C07_deg_rad_same : forall p a d,
